@@ -1,4 +1,3 @@
-import MgpuModel.C14_Ghost
 import MgpuProofs.C14Frame
 /-! # C14 — the wait counters against the really outstanding accesses
 
